@@ -127,19 +127,7 @@ theorem parse_to_string_base10 (i : Int) (hi : inI64 i = true) :
     never misreads a decimal integer (`"0"` is read as octal zero; no other text starts with `0`). -/
 theorem parse_to_string_auto (i : Int) (hi : inI64 i = true) :
     parseInt (.bytes (intText i)) none = .ok (.int i) := by
-  have h := fromStrRadix_signedText i 10 (by omega) (by omega) hi
-  rw [← intText_eq] at h
-  have hi' := (inI64_iff i).mp hi
-  by_cases hneg : i < 0
-  · have ht : intText i = 45 :: magText 10 (-i).toNat := by simp [intText, hneg]
-    rw [ht] at h ⊢
-    simp [parseInt, h, optToRes, Res.map]
-  · by_cases h0 : i = 0
-    · subst h0; decide
-    · have ht : intText i = magText 10 i.toNat := by simp [intText, hneg]
-      obtain ⟨c, t, hm, hc⟩ := magText_head 10 i.toNat (by omega) (by omega) (by omega) (by omega)
-      rw [ht, hm] at h ⊢
-      simp [parseInt, hc, h, optToRes, Res.map]
+  rw [intText_eq]; exact parseInt_auto_signedText i hi
 
 /-- `to_int(to_string(i)) = i` for every `i64`. -/
 theorem to_int_to_string (i : Int) (hi : inI64 i = true) :
